@@ -1278,10 +1278,11 @@ def rewrite_for_loops(toks, arrays=()):
                    + body + T(" vf_o = vf_e; } }", like))
         elif (len(es) >= 2 and etxt[0] == "&" and etxt[1] != "mut" and len(ps) == 1 and ps[0].k == "ident"
               and all(e.k == "ident" or e.s == "." for e in es[1:]) and es[-1].k == "ident"):
-            # R19h: for P in &X   (X a place: ident or field path holding a Vec / slice / array; P: &T in index order)
+            # R19h: for P in &X   (X a place: ident or field path holding a Vec / slice / array; P: &T in index order);
+            # the index is advanced BEFORE the body so that a `continue` in the body keeps the for-loop's meaning
             xs, v = txt(es[1:]), ps[0].s
             new = (T("{ let mut vf_i: usize = 0; while vf_i < (%s).len() " % xs, like) + marks + T("{ ", like)
-                   + lead + T("let %s = &(%s)[vf_i]; " % (v, xs), like) + body + T(" vf_i += 1; } }", like))
+                   + lead + T("let %s = &(%s)[vf_i]; vf_i += 1; " % (v, xs), like) + body + T(" } }", like))
         else:
             raise ExtractError("for-loop over `%s` is outside rules R11/R19 (line %d)" % (txt(es), t.line))
         toks[i:c + 1] = new
